@@ -121,6 +121,17 @@ func (pc *posChecker) within(what string, child, parent span) {
 	}
 }
 
+// endsAfterLast: whatever here-documents do to the End() of earlier children, a node never ends before the child that
+// comes last in the source ends, and never starts after its first child.
+func (pc *posChecker) endsAfterLast(what string, parent, last span) {
+	if parent.end.IsZero() || last.end.IsZero() {
+		return
+	}
+	if parent.end.Before(last.end) {
+		pc.bad("%s ends at %d:%d, before its last child ends (%d:%d)", what, parent.end.Line(), parent.end.Col(), last.end.Line(), last.end.Col())
+	}
+}
+
 func (pc *posChecker) ordered(what string, prev, cur span) {
 	if prev.pos.IsZero() || cur.pos.IsZero() {
 		return
@@ -169,6 +180,7 @@ func (pc *posChecker) command(what string, c ast.Command, hd *bool) span {
 			}
 			prev = s
 		}
+		pc.endsAfterLast(what+":List", sp, prev)
 		return sp
 	case *ast.AndOrList:
 		sp := pc.node(what+":AndOrList", c, true)
@@ -186,6 +198,7 @@ func (pc *posChecker) command(what string, c ast.Command, hd *bool) span {
 		if c.Sep != "" || !c.SepPos.IsZero() {
 			pc.spells(what+".SepPos", c.SepPos, c.Sep)
 		}
+		pc.endsAfterLast(what+":AndOrList", sp, prev)
 		return sp
 	case *ast.Pipeline:
 		sp := pc.node(what+":Pipeline", c, true)
@@ -197,6 +210,7 @@ func (pc *posChecker) command(what string, c ast.Command, hd *bool) span {
 			pc.ordered(what+".List", prev, s)
 			prev = s
 		}
+		pc.endsAfterLast(what+":Pipeline", sp, prev)
 		return sp
 	case *ast.Cmd:
 		sp := pc.node(what+":Cmd", c, true)
@@ -631,6 +645,40 @@ func c04Run(w *W) {
 			w.Violation(c04Class(faults), mkSymCase(ss), fmt.Sprintf("ParseCommands(%q): %s", r.src, strings.Join(faults, "; ")))
 		}
 	})
+	// (c) the repetition family: one construct repeated or nested n = 1 … 24 times (line numbers and columns above 9)
+	for n := 1; n <= 24; n++ {
+		if !w.Mine() || w.TimeUp() {
+			continue
+		}
+		for _, src := range repetitionSources(n) {
+			if strings.Contains(src, "\\\n") {
+				continue // line continuations are excluded by the property
+			}
+			w.Announce(src)
+			o := runParse(src) // (positions are relative to the call: only the first command of the source is looked at)
+			if o.err != nil || o.pan != nil {
+				continue
+			}
+			cmds, comments := o.cmds, o.comments
+			w.Count("states", 1)
+			w.Count("evaluations", 1)
+			w.Count("repetition_sources", 1)
+			w.Count("traces_validated_against_impl", 1)
+			w.Count("distinct_nontrivial", 1)
+			var faults []string
+			func() {
+				defer func() {
+					if e := recover(); e != nil {
+						faults = []string{fmt.Sprintf("walking the AST panicked: %v", e)}
+					}
+				}()
+				faults = c04Check(src, cmds, comments)
+			}()
+			if len(faults) > 0 {
+				w.Violation(c04Class(faults), symCase{nil, src}, fmt.Sprintf("ParseCommands(%q): %s", src, strings.Join(faults, "; ")))
+			}
+		}
+	}
 	// (b) the derivation sets in three layouts, plus their multi-byte variants
 	seen := map[string]bool{}
 	derivations(w.thorough(), func(name string, texts []string) {
